@@ -1481,3 +1481,199 @@ theorem filter_map_id_of_nodup (f : Entry → Rec) (hf : ∀ e, (f e).id = e.id)
       simp only [hne, Bool.false_eq_true, if_false]
       exact ih hn.2 he'
 end Kit.CronSched
+
+namespace Kit.CronSched
+
+/-- The loop variable `now` is in step with the clock: when about to arm, `now` is the clock;
+while parked, the timer was armed with `now` = clock-at-arming and a fired timer carries the
+current clock value. -/
+def Sync (s : State) : Prop :=
+  match s.pc with
+  | .arm => s.now = s.clock
+  | .parked (some tm) => s.now = tm.armedAt ∧ ∀ v, tm.fired = some v → v = s.clock
+  | _ => True
+
+/-- The clock may be advanced "politely": the loop is not between reading/receiving a time and
+arming with it (`arm`), and no fired timer value is waiting to be picked up. -/
+def mayAdvance (s : State) : Bool :=
+  match s.pc with
+  | .arm => false
+  | .parked (some tm) => tm.fired.isNone
+  | _ => true
+
+/-- Histories in which the clock only moves while `mayAdvance` holds (what a caller sees when
+time passes while the scheduler is idle; what the harness does outside its forced races). -/
+def polite (S : Scheds) : State → List Label → Bool
+  | _, [] => true
+  | s, l :: ls =>
+    (match l with
+     | .advance _ => mayAdvance s
+     | _ => true) &&
+    (match step S s l with
+     | some s' => polite S s' ls
+     | none => true)
+
+theorem sync_step {S : Scheds} {s s' : State} {l : Label} (hS : Sync s)
+    (hl : ∀ t, l = .advance t → mayAdvance s = true) (h : step S s l = some s') : Sync s' := by
+  cases l with
+  | add sid =>
+    rcases step_add_inv h with ⟨_, _, rfl⟩ | ⟨_, rfl⟩
+    · simp [Sync]
+    · exact hS
+  | remove id =>
+    rcases step_remove_inv h with ⟨_, _, rfl⟩ | ⟨_, rfl⟩
+    · simp [Sync]
+    · exact hS
+  | snapshot => obtain ⟨rfl, _⟩ := step_snapshot_inv h; exact hS
+  | start =>
+    rcases step_start_inv h with ⟨_, rfl⟩ | ⟨_, rfl⟩
+    · exact hS
+    · simp [Sync]
+  | stop =>
+    rcases step_stop_inv h with ⟨_, _, rfl⟩ | ⟨_, rfl⟩
+    · simp [Sync]
+    · exact hS
+  | advance t =>
+    have hm := hl t rfl
+    obtain ⟨hle, ⟨tm, hpc, rfl⟩ | ⟨hne, rfl⟩⟩ := step_advance_inv h
+    · simp only [mayAdvance, hpc] at hm
+      simp only [Sync, hpc] at hS
+      have hnone : tm.fired = none := by simpa using hm
+      show Sync _
+      simp only [Sync]
+      refine ⟨?_, ?_⟩
+      · unfold Timer.tick; simp only [hnone]; split <;> exact hS.1
+      · intro v hv
+        unfold Timer.tick at hv
+        simp only [hnone] at hv
+        split at hv
+        · simpa using hv.symm
+        · rw [hnone] at hv; cases hv
+    · unfold Sync at hS ⊢
+      cases hpc : s.pc with
+      | arm => simp [mayAdvance, hpc] at hm
+      | parked tmo =>
+        cases tmo with
+        | none => simp
+        | some tm => exact absurd hpc (hne tm)
+      | _ => simp
+  | boot => obtain ⟨_, rfl⟩ := step_boot_inv h; simp [Sync]
+  | refresh =>
+    rcases step_refresh_inv h with ⟨_, rfl⟩ | ⟨_, _, _, rfl⟩ <;> simp [Sync]
+  | arm =>
+    obtain ⟨hpc, rfl⟩ := step_arm_inv h
+    simp only [Sync, hpc] at hS
+    show Sync _
+    unfold Sync
+    simp only
+    cases hat : armTimer s.clock s.now (sortBT s.entries) with
+    | none => trivial
+    | some tm =>
+      simp only
+      unfold armTimer at hat
+      split at hat
+      · cases hat
+      · split at hat
+        · cases hat
+        · simp only [Option.some.injEq] at hat
+          subst hat
+          refine ⟨hS, ?_⟩
+          intro v hv
+          simp only at hv
+          split at hv
+          · simpa using hv.symm
+          · cases hv
+  | wake =>
+    obtain ⟨tm, v, hpc, hf, rfl⟩ := step_wake_inv h
+    simp only [Sync, hpc] at hS
+    show Sync _
+    simp only [Sync]
+    exact hS.2 v hf
+  | jobBegin i =>
+    obtain ⟨j, _, _, rfl⟩ := step_jobBegin_inv h
+    exact hS
+  | jobDone i =>
+    obtain ⟨j, c, _, _, rfl⟩ := step_jobDone_inv h
+    exact hS
+  | ctxWait k =>
+    obtain ⟨_, rfl⟩ := step_ctxWait_inv h
+    exact hS
+
+theorem sync_runFrom {S : Scheds} (h : List Label) :
+    ∀ {s s' : State}, Sync s → polite S s h = true → runFrom S s h = some s' → Sync s' := by
+  induction h with
+  | nil => intro s s' hS _ hr; simp [runFrom] at hr; subst hr; exact hS
+  | cons l ls ih =>
+    intro s s' hS hp hr
+    simp only [runFrom] at hr
+    cases hl : step S s l with
+    | none => simp [hl] at hr
+    | some s1 =>
+      rw [hl] at hr
+      simp only [polite, hl, Bool.and_eq_true] at hp
+      refine ih (sync_step hS ?_ hl) hp.2 hr
+      intro t ht
+      subst ht
+      exact hp.1
+end Kit.CronSched
+
+namespace Kit.CronSched
+
+/-- every recorded start happened at a wake whose `now` was the clock value of that moment -/
+def ExactLog (log : List Rec) : Prop :=
+  ∀ id sid a w c, Rec.run id sid a w c ∈ log → w = c
+
+theorem exactLog_step {S : Scheds} {s s' : State} {l : Label} (hS : Sync s) (hE : ExactLog s.log)
+    (h : step S s l = some s') : ExactLog s'.log := by
+  cases l with
+  | add sid => rcases step_add_inv h with ⟨_, _, rfl⟩ | ⟨_, rfl⟩ <;> exact hE
+  | remove id => rcases step_remove_inv h with ⟨_, _, rfl⟩ | ⟨_, rfl⟩ <;> exact hE
+  | snapshot => obtain ⟨rfl, _⟩ := step_snapshot_inv h; exact hE
+  | start => rcases step_start_inv h with ⟨_, rfl⟩ | ⟨_, rfl⟩ <;> exact hE
+  | stop => rcases step_stop_inv h with ⟨_, _, rfl⟩ | ⟨_, rfl⟩ <;> exact hE
+  | advance t => obtain ⟨_, ⟨tm, _, rfl⟩ | ⟨_, rfl⟩⟩ := step_advance_inv h <;> exact hE
+  | boot =>
+    obtain ⟨_, rfl⟩ := step_boot_inv h
+    intro id sid a w c hm
+    rcases List.mem_append.1 hm with hm | hm
+    · obtain ⟨e, _, he⟩ := List.mem_map.1 hm
+      simp [schedRec] at he
+    · exact hE id sid a w c hm
+  | refresh =>
+    rcases step_refresh_inv h with ⟨_, rfl⟩ | ⟨_, _, _, rfl⟩
+    · exact hE
+    · intro id sid a w c hm
+      rcases List.mem_cons.1 hm with hm | hm
+      · simp [schedRec] at hm
+      · exact hE id sid a w c hm
+  | arm => obtain ⟨_, rfl⟩ := step_arm_inv h; exact hE
+  | wake =>
+    obtain ⟨tm, v, hpc, hf, rfl⟩ := step_wake_inv h
+    simp only [Sync, hpc] at hS
+    have hv := hS.2 v hf
+    intro id sid a w c hm
+    rcases List.mem_append.1 hm with hm | hm
+    · obtain ⟨e, _, he⟩ := List.mem_map.1 hm
+      simp only [runRec, Rec.run.injEq] at he
+      omega
+    · exact hE id sid a w c hm
+  | jobBegin i => obtain ⟨_, _, _, rfl⟩ := step_jobBegin_inv h; exact hE
+  | jobDone i => obtain ⟨_, _, _, _, rfl⟩ := step_jobDone_inv h; exact hE
+  | ctxWait k => obtain ⟨_, rfl⟩ := step_ctxWait_inv h; exact hE
+
+theorem exactLog_runFrom {S : Scheds} (h : List Label) :
+    ∀ {s s' : State}, Sync s → ExactLog s.log → polite S s h = true → runFrom S s h = some s' →
+      ExactLog s'.log := by
+  induction h with
+  | nil => intro s s' _ hE _ hr; simp [runFrom] at hr; subst hr; exact hE
+  | cons l ls ih =>
+    intro s s' hS hE hp hr
+    simp only [runFrom] at hr
+    cases hl : step S s l with
+    | none => simp [hl] at hr
+    | some s1 =>
+      rw [hl] at hr
+      simp only [polite, hl, Bool.and_eq_true] at hp
+      have hS1 : Sync s1 := sync_step hS (by intro t ht; subst ht; exact hp.1) hl
+      exact ih hS1 (exactLog_step hS hE hl) hp.2 hr
+end Kit.CronSched
